@@ -79,7 +79,10 @@ def _flag_tests(fn: ast.FunctionDef):
                     out.append(("".join(fl) + "?", "|".join(calls(st.test))))
                 visit(st.body)
                 visit(st.orelse)
-            elif isinstance(st, (ast.While, ast.For, ast.With, ast.Try)):
+            elif isinstance(st, ast.While):
+                out.append(("while", "|".join(calls(st.test))))
+                visit(st.body)
+            elif isinstance(st, (ast.For, ast.With, ast.Try)):
                 visit(getattr(st, "body", []))
 
     # the local branch: the last `elif not self._skip_check and not self._std_io`
